@@ -42,12 +42,26 @@ theorem builtins_never_panic (fo : FOps) (name : String) (args : List Value) :
   have h := builtin_safe fo name args
   intro hc; rw [hc] at h; exact h
 
+/-- `.pattern` lambdas (`eval_pattern_expr`: lambdas, blocks, array methods `filter/map/flatten/
+sliding_pairs/…`, aggregates, member access, comparisons) never panic either, for every binding
+of the pattern variables -/
+theorem pattern_expr_never_panics (fo : FOps) (vars : List (String × Value)) (e : Expr) :
+    evalPat fo .fixed vars e ≠ .panic ∧ evalPat fo .fixed vars e ≠ .diverge := by
+  have h := evalPat_safe fo e vars
+  constructor <;> intro hc <;> rw [hc] at h <;> exact h
+
+/-- `slice::sort_by` may panic when its comparator is not a total order. The comparator of `sort`
+(after the repair; `f64::total_cmp` for floats, kind rank across kinds) is one: antisymmetric and
+transitive on all values, NaN of either sign, ±0.0 and mixed kinds included. -/
+theorem sort_comparator_is_total_preorder :
+    (∀ a b : Value, sortCmp b a = Ordering.rev (sortCmp a b)) ∧
+      (∀ a b c : Value, sortCmp a b ≠ .gt → sortCmp b c ≠ .gt → sortCmp a c ≠ .gt) :=
+  ⟨sortCmp_rev, fun _ _ _ h1 h2 => sortCmp_trans h1 h2⟩
+
 /-- the pattern-expression operator evaluation (`eval_binary_op`) is total as well -/
 theorem pattern_binop_never_panics (op : BinOp) (l r : Value) :
     patternBinop .fixed op l r ≠ .panic ∧ patternBinop .fixed op l r ≠ .diverge := by
-  have h : (patternBinop .fixed op l r).safe := by
-    unfold patternBinop
-    split <;> first | exact cmpVals_safe _ _ _ | (unfold cmpValsSameKind; split <;> simp) | simp
+  have h := patternBinop_safe op l r
   constructor <;> intro hc <;> rw [hc] at h <;> exact h
 
 /-! ### the defects of the unchanged tree, exhibited by the same model in `Mode.old` -/
